@@ -345,6 +345,13 @@ func (bs *blockstore) AllKeysChanWithErr(ctx context.Context) (<-chan cid.Cid, f
 		for {
 			e, ok := res.NextSync()
 			if !ok {
+				// Datastores whose results are produced by a goroutine simply
+				// stop producing when the query context is cancelled: the
+				// results end without an error entry. The enumeration must
+				// not be reported as complete in that case.
+				if err := ctx.Err(); err != nil {
+					iterErr = err
+				}
 				return
 			}
 			if e.Error != nil {
